@@ -7,6 +7,8 @@ import (
 	"fmt"
 	"os"
 	"path/filepath"
+
+	"github.com/FollowTheProcess/spok/verifhook"
 )
 
 const (
@@ -60,18 +62,22 @@ func Init(path string, names ...string) error {
 		cache.inner[name] = ""
 	}
 
+	verifhook.Point("cache.init.begin", path)
 	if err := os.MkdirAll(filepath.Dir(path), dirPerms); err != nil {
 		return err
 	}
 
+	verifhook.Point("cache.init.mkdir", path)
 	if err := cache.Dump(path); err != nil {
 		return err
 	}
 
+	verifhook.Point("cache.init.dumped", path)
 	if err := makeGitIgnore(filepath.Dir(path)); err != nil {
 		return err
 	}
 
+	verifhook.Point("cache.init.gitignore", path)
 	return makeCacheDirTag(filepath.Dir(path))
 }
 
@@ -82,7 +88,9 @@ func (c *Cache) Dump(path string) error {
 		return err
 	}
 
+	verifhook.Point("cache.dump.pre", path, string(contents))
 	err = os.WriteFile(path, contents, filePerms)
+	verifhook.Point("cache.dump.post", path, err == nil)
 	if err != nil {
 		return fmt.Errorf("Could not write spok cache at %q: %s", path, err)
 	}
